@@ -181,3 +181,10 @@ Definition infer_root (h : heap) (a : addr) (lfs : fields) : styping :=
 
 Definition infer_inputs (h : heap) (fs : fields) (d : addr) (layers : list addr) : styping :=
   infer_root h d fs ++ flat_map (fun l => infer_root h l (ptrify_fields fs)) layers.
+
+(* guard for a replayed history: every event only re-stacks values that already live in the heap *)
+Definition c02_history_guard (h : heap) (n0 : N) (R D : nat) (rk : list (addr * nat)) (S0 : styping)
+           (fs : fields) (defaults : addr) (layerss : list (list addr)) : bool :=
+  wf_heapb h n0 && wf_rankb h R D rk && wf_kindsb h && Nat.leb 1 D && cfg_ok fs &&
+  wtb S0 h && sboundb S0 n0 && root_ok h n0 S0 defaults fs &&
+  forallb (forallb (fun l => root_ok h n0 S0 l (ptrify_fields fs))) layerss.
